@@ -269,8 +269,8 @@ def run(ctx):
         "grid": {
             "rsa_keys": sorted({k for _, sh in rsa_plan(q) for k in [sh[1]]}),
             "v15_hashes": list(B.V15_HASHES), "pss_hashes": list(B.PSS_HASHES), "dss_hashes": list(B.DSS_HASHES),
-            "rsa_bit_flips": "all bits of the signature and of the encoded message for moduli <= 1032 bits; 2048-bit moduli: "
-                             "first/last 64 bits + one bit per octet",
+            "rsa_bit_flips": "every bit of the signature (SHA-256, each key) and every bit of the authentic encoded message "
+                             "(re-signed with the private key)",
             "dss_keys": sorted(dsskeys),
             "dss_bit_flips": ("every bit of the RFC 6979 signature (binary and DER) with SHA-256; quick: not for P-384/P-521"
                               if q else "every bit of the RFC 6979 signature (binary and DER), three hashes, all keys"),
@@ -283,7 +283,7 @@ def run(ctx):
                "integers, encodings, tapes) is enumerated completely within the stated grids")
     ctx.assume("soundness is one-sided: standard-valid signatures sign() never emits (ECDSA with x(R) >= n cannot be crafted; "
                "(r, q-s); small-order EdDSA points the library refuses) are observations only")
-    ctx.assume("RSA-2048 bit flips are restricted to the first/last 64 bits plus one bit per octet; RSA-2048 only in thorough")
+    ctx.assume("RSA-2048 keys only in thorough; bit-flip alphabets are applied to the SHA-256 signature / encoded message of each key")
     ctx.assume("PSS hashes are those hashlib can name (the reference MGF1 needs them); BLAKE2/MD2/MD4 only for PKCS#1 v1.5")
     ctx.assume("DigestInfo without NULL parameters is tolerated (RFC 8017 A.2.4 note): acceptance is logged, not judged")
     ctx.assume("the FIPS-mode nonce is read off the tape by the FIPS 186-4 B.2.2 testing-candidates rule (c = bits; c > q-2: "
